@@ -292,3 +292,35 @@ func HarnessC07RecordPow2Enum() {
 	c07CheckPoint(p, maxSize, 0, recs, 0, "pow2")
 	vndAssert(p.count == uint64(k), "every-finite-measurement-counted")
 }
+
+// the library's portable math.Frexp (go/src/math/frexp.go and bits.go), copied
+// so that the engine's bit-level summary of math.Frexp can be compared with it
+func c07LibFrexp(f float64) (frac float64, exp int) {
+	switch {
+	case f == 0:
+		return f, 0
+	case math.IsInf(f, 0) || math.IsNaN(f):
+		return f, 0
+	}
+	// normalize
+	if math.Abs(f) < 2.2250738585072014e-308 {
+		f, exp = f*(1<<52), -52
+	}
+	x := math.Float64bits(f)
+	exp += int((x>>52)&0x7ff) - 1022
+	x &^= 0x7ff << 52
+	x |= 1022 << 52
+	frac = math.Float64frombits(x)
+	return
+}
+
+// translator validation: the Frexp summary used by getBin agrees with the
+// library source on every float64 (one query with a single fp.mul)
+func HarnessC07FrexpSummary() {
+	f := vndF64()
+	gf, ge := math.Frexp(f)
+	wf, we := c07LibFrexp(f)
+	vndReach("frexp")
+	vndAssert(math.Float64bits(gf) == math.Float64bits(wf) || (gf != gf && wf != wf), "frexp-summary-fraction-equals-library")
+	vndAssert(ge == we, "frexp-summary-exponent-equals-library")
+}
